@@ -13,6 +13,7 @@ def check(ctx):
     ctx.rule("C06.X6", "the engine evaluated as a whole on every small multigraph, failing set (Exception and BaseException), max_errors, scheduler and dequeue order: nothing downstream of a failed call is called, no call starts after the failure budget is exceeded, the carrier of the first failed node is raised, chained to that call's exception")
     from .engineeval import rule_engine_evaluated
     ctx.run(rule_engine_evaluated, "C06.X6", None, ("containment", "budget", "outcome", "cause"))
+    ctx.run(E.rule_callback_state_private, "C06.X4")
     r = E.discover(ctx.model)
     rr = R.discover(ctx.model, r)
     ctx.run(E.rule_enqueue_after_success, "C06.X1", r)
